@@ -681,4 +681,127 @@ example :
 
 example : seqRun 5 0 [some 10, some 10, some 7, none] none = [10, 11, 12, 13, 14] := by decide
 
+/-- The timed branch, exactly: in the domain, a call whose skew exceeds the threshold warns iff the interval has
+elapsed since the stored instant, and then stores `now`. -/
+theorem warns_iff_interval_elapsed (c : WarnCfg) (last u : Int) (w : WarnSt) (now : Nat)
+    (hd : WarnDomain (some c) w) (hu : u ≤ last) (ht : last - u > c.thresholdUs) :
+    computeNextW (some c) last (some u) w now =
+      if now ≥ w.lastWarnNs + c.intervalNs then (some (last + 1, .skew), { w with lastWarnNs := now })
+      else (some (last + 1, .no), w) := by
+  obtain ⟨hp, hrep⟩ := hd
+  have hr := hrep c rfl
+  unfold computeNextW
+  have hu' : ¬ u > last := by omega
+  simp only [hu', if_false, ht, if_true, hp, Bool.false_eq_true, instantCheckedAdd, hr]
+
+/-- `seqt` runs (paused tokio clock, explicit advances): in the domain the values are those of `seqRun`. -/
+theorem seqRunT_values (cfg : Option WarnCfg) (advs : List Nat) (last : Int)
+    (script : List (Option Nat)) (le : Option Nat) (w : WarnSt) (now : Nat) (hp : w.poisoned = false)
+    (hlw : w.lastWarnNs ≤ now)
+    (hB : ∀ c, cfg = some c → (now + advs.sum + c.intervalNs) / 1000000000 < 2 ^ 63) :
+    (seqRunT cfg advs last script le w now).map (Option.map Prod.fst) = (seqRun advs.length last script le).map some := by
+  induction advs generalizing last script le w now with
+  | nil => simp [seqRunT, seqRun]
+  | cons a advs ih =>
+    unfold seqRunT seqRun
+    simp only
+    have hd : WarnDomain cfg w := by
+      refine ⟨hp, ?_⟩
+      intro c hc
+      have := hB c hc
+      refine Nat.lt_of_le_of_lt (Nat.div_le_div_right ?_) this
+      simp only [List.sum_cons]; omega
+    obtain ⟨v, wd, w', hc, hpz, hl⟩ :=
+      no_panic_in_domain cfg last ((readClock script le).1.map microsAsI64) w (now + a) hd
+    have hv := warning_state_does_not_change_value cfg last _ w _ v wd w' hc
+    rw [hc]
+    simp only [List.map_cons, Option.map_some, List.length_cons]
+    have hlw' : w'.lastWarnNs ≤ now + a := by rcases hl with h | h <;> omega
+    have hB' : ∀ c, cfg = some c → (now + a + advs.sum + c.intervalNs) / 1000000000 < 2 ^ 63 := by
+      intro c hc'
+      have := hB c hc'
+      simp only [List.sum_cons] at this
+      have e : now + a + advs.sum + c.intervalNs = now + (a + advs.sum) + c.intervalNs := by omega
+      rw [e]; exact this
+    rw [ih v _ _ w' (now + a) hpz hlw' hB', hv]
+
+example : seqRunT (some ⟨0, 5⟩) [0, 4, 1, 0] 10 [some 9, some 9, some 9, some 9] none ⟨0, false⟩ 0 =
+    [some (11, .no), some (12, .no), some (13, .skew), some (14, .no)] := by decide
+
+/-! ### the statement-API layer -/
+
+/-- **set then get is the identity** for every statement kind and EVERY batch type, whatever was set before
+(`Some` after `None`, `None` after `Some`, `Some` after `Some`). -/
+theorem set_get_timestamp (t : Option Int) :
+    (∀ s : StatementM, (s.setTimestamp t).getTimestamp = t) ∧
+    (∀ p : PreparedM, (p.setTimestamp t).getTimestamp = t) ∧
+    (∀ b : BatchM, (b.setTimestamp t).getTimestamp = t ∧ (b.setTimestamp t).ty = b.ty ∧ (b.setTimestamp t).stmts = b.stmts) :=
+  ⟨fun _ => rfl, fun _ => rfl, fun _ => ⟨rfl, rfl, rfl⟩⟩
+
+/-- Fresh values carry no timestamp (so the generator is asked), for every batch type and either constructor. -/
+theorem constructors_carry_no_timestamp (ty : BatchType) (stmts : List BatchStmtM) :
+    StatementM.new.getTimestamp = none ∧ (BatchM.new ty).getTimestamp = none ∧
+    (BatchM.newWithStatements ty stmts).getTimestamp = none := ⟨rfl, rfl, rfl⟩
+
+/-- Everything that copies or rebuilds a statement keeps its timestamp: `Batch::new_from`, `append_statement`,
+`Connection::prepare` / `Session::prepare` (Statement → PreparedStatement), `Session::prepare_batch` /
+`CachingSession::prepare_batch` (clone + replace). -/
+theorem copies_keep_timestamp (b : BatchM) (st : BatchStmtM) (s : StatementM) :
+    b.newFrom.getTimestamp = b.getTimestamp ∧ b.newFrom.ty = b.ty ∧ (b.append st).getTimestamp = b.getTimestamp ∧
+    s.prepare.getTimestamp = s.getTimestamp ∧ (sessionPrepareBatch b).getTimestamp = b.getTimestamp ∧
+    (sessionPrepareBatch b).ty = b.ty := ⟨rfl, rfl, rfl, rfl, rfl, rfl⟩
+
+/-- A CachingSession handle carries the CURRENT call's timestamp, never the one of the call that filled the cache. -/
+theorem cached_handle_takes_current_timestamp (cachedFrom current : StatementM) :
+    (cachedHandle cachedFrom current).getTimestamp = current.getTimestamp := rfl
+
+private theorem foldl_append_ts (sts : List BatchStmtM) (f : BatchStmtM → BatchStmtM) (acc : BatchM) :
+    (sts.foldl (fun a st => a.append (f st)) acc).getTimestamp = acc.getTimestamp ∧
+    (sts.foldl (fun a st => a.append (f st)) acc).ty = acc.ty := by
+  induction sts generalizing acc with
+  | nil => exact ⟨rfl, rfl⟩
+  | cons st sts ih =>
+    simp only [List.foldl_cons]
+    obtain ⟨h1, h2⟩ := ih (acc.append (f st))
+    exact ⟨h1, h2⟩
+
+/-- `Connection::prepare_batch` keeps the batch's timestamp and type, rebuilt or not. -/
+theorem connPrepareBatch_keeps_timestamp (b : BatchM) (needs : BatchStmtM → Bool) :
+    (connPrepareBatch b needs).getTimestamp = b.getTimestamp ∧ (connPrepareBatch b needs).ty = b.ty := by
+  unfold connPrepareBatch
+  split
+  · exact foldl_append_ts b.stmts _ b.newFrom
+  · exact ⟨rfl, rfl⟩
+
+/-- **From the setter to the wire, every batch type**: a batch of ANY type (Logged, Unlogged, Counter), built by
+either constructor, with `set_timestamp(Some t)` called last, whatever statements it holds and whether or not
+`prepare_batch` rebuilds it: every BATCH frame of the call carries exactly `t`, whatever generator the connection
+has and however often the frame is re-sent. -/
+theorem explicit_batch_timestamp_reaches_every_frame (b : BatchM) (t : Int) (needs : BatchStmtM → Bool)
+    (gen : Option (Unit → Int)) (resends : Nat) :
+    ∀ f ∈ batchCallFrames (b.setTimestamp (some t)) needs gen resends, f = some t := by
+  intro f hf
+  unfold batchCallFrames at hf
+  rw [(connPrepareBatch_keeps_timestamp _ needs).1] at hf
+  exact (batch_timestamp_on_every_frame _ gen resends).2.2 t rfl f hf
+
+/-- … and a batch whose timestamp was cleared last (`set_timestamp(None)` after `Some`) gets the generator's. -/
+theorem cleared_batch_timestamp_is_generated (b : BatchM) (needs : BatchStmtM → Bool) (g : Unit → Int) (resends : Nat) :
+    ∀ f ∈ batchCallFrames (b.setTimestamp none) needs (some g) resends, f = some (g ()) := by
+  intro f hf
+  unfold batchCallFrames at hf
+  rw [(connPrepareBatch_keeps_timestamp _ needs).1] at hf
+  exact (batch_timestamp_on_every_frame _ _ resends).2.1 f hf
+
+/-- `Session::query_*` WITH VALUES: the statement's explicit timestamp survives `Connection::prepare` and is on
+every EXECUTE frame. -/
+theorem explicit_statement_timestamp_survives_prepare (s : StatementM) (t : Int) (gen : Option (Unit → Int))
+    (unprepared : Bool) : ∀ f ∈ queryWithValuesFrames (s.setTimestamp (some t)) gen unprepared, f = some t :=
+  explicit_timestamp_on_every_frame t gen unprepared
+
+example : batchCallFrames ((BatchM.newWithStatements .counter [.query {}, .prepared {}]).setTimestamp (some 7))
+    (fun st => st == .query {}) (some fun _ => 99) 1 = [some 7, some 7] := by decide
+example : apiRunBatch (BatchM.new .counter) [.get, .set (some 5), .get, .clone, .append, .get, .set none, .get] =
+    [none, some 5, some 5, none] := by decide
+
 end ScyllaVerif.Props.C18
